@@ -6,7 +6,7 @@
   mod_simple_vhost.c / mod_evhost.c by the h_keyvalue correspondence; the modifier -> flag map
   and the base64url tables are regenerated from the C on every run (Extracted/KvModifiers.lean).
 -/
-import LtVerif.Proofs.KeyValue
+import LtVerif.Proofs.KeyValueSpec
 namespace LtVerif.C20
 open LtVerif B
 
@@ -76,11 +76,12 @@ example : (match redirect 0 false false none
 /-- The modifier-name -> recoding map of pcre_keyvalue_buffer_subst_ext(), *extracted from the C
     function of the current tree* (Extracted/KvModifiers.lean), is the documented one: esc/escape
     select "encode all", escnde "no double encoding", escpsnde the same preserving '/', noesc/noescape
-    "no encoding", tolower / toupper the case mappings, encb64u / decb64u the base64url codec; and a
-    capture without any modifier is recoded like escpsnde.  A wrong mapping in keyvalue.c (e.g.
+    "no encoding", tolower / toupper the case mappings, encb64u / decb64u the base64url codec; a
+    capture without any modifier is recoded like escpsnde, and so is a capture with only a case
+    modifier (`${tolower:1}` reaches burl_append with tolower|escpsnde, observed on the real function).  A wrong mapping in keyvalue.c (e.g.
     "upper:" selecting BURL_TOLOWER) makes exactly this theorem unprovable. -/
 theorem c20_modifier_map : ModifierMapAsDocumented := by
-  refine ⟨?_, by decide⟩
+  refine ⟨?_, by decide, by decide, by decide⟩
   intro m
   cases m <;> decide
 
@@ -112,41 +113,115 @@ theorem c20_noesc_identity (s look : Bytes) : burlAppend Extracted.burlEncodeNon
 
 example : burlAppend Extracted.burlEncodeNone (ofString "a b/%zz?") [] = ofString "a b/%zz?" := by decide
 
-/-- `${esc:…}`: the inserted string consists of unreserved characters and %HH triplets only -/
-theorem c20_esc_output_safe (s look : Bytes) : PctSafe (burlAppend Extracted.burlEncodeAll s look) := by
-  unfold burlAppend
-  by_cases h : s = []
-  · simp [h]; exact .nil
-  · simp only [h, if_false]
-    simp only [burlEncode, flagSet, Extracted.burlEncodeAll, Extracted.burlEncodeNone,
-               Extracted.burlToLower, Extracted.burlToUpper]
-    simpa using encAll_safe s
+/-- `${esc:…}` / `${escape:…}`: what is inserted is the per-byte percent-encoding of the value (every
+    byte that is not unreserved becomes %HH, '%' included); it consists of unreserved characters and
+    %HH triplets only, and nothing is lost: percent-decoding it gives the value back -/
+theorem c20_esc_transform (s look : Bytes) :
+    burlAppend Extracted.burlEncodeAll s look = Spec.escAll s ∧
+    PctSafe (burlAppend Extracted.burlEncodeAll s look) ∧
+    Spec.decode (burlAppend Extracted.burlEncodeAll s look) = s := by
+  have e : burlAppend Extracted.burlEncodeAll s look = Spec.escAll s := by
+    unfold burlAppend
+    by_cases h : s = []
+    · simp [h, Spec.escAll]
+    · simp only [h, if_false]
+      simp only [burlEncode, flagSet, Extracted.burlEncodeAll, Extracted.burlEncodeNone,
+                 Extracted.burlToLower, Extracted.burlToUpper]
+      simpa using encAll_spec s
+  refine ⟨e, ?_, ?_⟩
+  · rw [e, ← encAll_spec]; exact encAll_safe s
+  · rw [e]; exact decode_escAll s
 
-example : burlAppend Extracted.burlEncodeAll (ofString "a b/%41") [] = ofString "a%20b%2F%2541" := by decide
+/-- `${escnde:…}` / `${escpsnde:…}` (and `${N}` without modifier): the per-token recoding of the
+    specification — existing %XX escapes are not encoded again (decoded when they stand for an
+    unreserved character), all other bytes but unreserved ones (and '/' for escpsnde) become %HH — and
+    the meaning is kept: the result percent-decodes to what the value percent-decodes to. -/
+theorem c20_escnde_transform (s look : Bytes) :
+    burlAppend Extracted.burlEncodeNde s look = Spec.escNde false s ∧
+    burlAppend Extracted.burlEncodePsnde s look = Spec.escNde true s ∧
+    Spec.decode (burlAppend Extracted.burlEncodeNde s look) = Spec.decode s ∧
+    Spec.decode (burlAppend Extracted.burlEncodePsnde s look) = Spec.decode s := by
+  have e1 : burlAppend Extracted.burlEncodeNde s look = Spec.escNde false s := by
+    have := burlAppend_spec_url [.escnde] s look (by simp [Spec.caseOk, Spec.has])
+    simpa [flagsOf, Modifier.flag, Spec.recode, Spec.caseMap, Spec.encode, Spec.has] using this
+  have e2 : burlAppend Extracted.burlEncodePsnde s look = Spec.escNde true s := by
+    have := burlAppend_spec_url [.escpsnde] s look (by simp [Spec.caseOk, Spec.has])
+    simpa [flagsOf, Modifier.flag, Spec.recode, Spec.caseMap, Spec.encode, Spec.has] using this
+  exact ⟨e1, e2, by rw [e1]; exact decode_escNde false s, by rw [e2]; exact decode_escNde true s⟩
 
-/-- `${tolower:…}` (with any encoder): what is inserted is the encoder's output with only the case of
-    ASCII letters changed, and it has no upper-case ASCII letter outside %XX triplets;
-    `${toupper:…}` likewise has no lower-case letter outside %XX triplets. -/
-theorem c20_case_modifiers (flags : Nat) (s look : Bytes) (hs : s ≠ [])
-    (hnul : (0 : UInt8) ∉ burlEncode flags s look) :
-    (flagSet flags Extracted.burlToLower = true →
-        NoUpperOutsidePct (burlAppend flags s look) ∧
-        (burlAppend flags s look).map toLower = (burlEncode flags s look).map toLower) ∧
-    (flagSet flags Extracted.burlToLower = false → flagSet flags Extracted.burlToUpper = true →
-        NoLowerOutsidePct (burlAppend flags s look) ∧
-        (burlAppend flags s look).map toLower = (burlEncode flags s look).map toLower) := by
-  have hf : flags ≠ 0 ∨ flags = 0 := by omega
+/-- `$N` / `${…N}` insert the capture and nothing but the capture: what is appended for a string is the
+    same whatever bytes follow it in the subject it is a slice of (burl_append never looks behind the
+    `len` bytes it is given) — for every flag set.  E.g. the capture "x%" of the subject "x%41" expands
+    to "x%25", not to "xA". -/
+theorem c20_capture_only (flags : Nat) (s look look' : Bytes) :
+    burlAppend flags s look = burlAppend flags s look' := by
+  have h : ∀ l, burlEncode flags s l = burlEncode flags s [] := by
+    intro l
+    simp only [burlEncode, encNde_spec _ l s, encNde_spec _ [] s]
+  simp only [burlAppend, h look, h look']
+
+example : burlAppend Extracted.burlEncodePsnde (ofString "x%") (ofString "41") = ofString "x%25" := by decide
+
+/-- `${tolower:…}` / `${toupper:…}` with any sequence of further modifiers, for URL parts (`flagsOf
+    mods` are the flags pcre_keyvalue_buffer_subst_ext hands to burl_append): what is inserted is
+    the case mapping of the specification (ASCII letters outside %XX escapes) applied to the encoded
+    value — the value itself when no encoding modifier is given, never nothing; it has no upper-case
+    (lower-case) letter outside %XX and differs from the encoded value in letter case only. -/
+theorem c20_case_modifiers (mods : List Modifier) (s look : Bytes)
+    (hnul : (0 : UInt8) ∉ Spec.encode id mods s) :
+    (Spec.has mods .tolower = true →
+        burlAppend (flagsOf mods) s look = Spec.lower (Spec.encode id mods s) ∧
+        NoUpperOutsidePct (burlAppend (flagsOf mods) s look) ∧
+        (burlAppend (flagsOf mods) s look).map toLower = (Spec.encode id mods s).map toLower) ∧
+    (Spec.has mods .tolower = false → Spec.has mods .toupper = true →
+        burlAppend (flagsOf mods) s look = Spec.upper (Spec.encode id mods s) ∧
+        NoLowerOutsidePct (burlAppend (flagsOf mods) s look) ∧
+        (burlAppend (flagsOf mods) s look).map toLower = (Spec.encode id mods s).map toLower) := by
+  have h := burlAppend_spec_url mods s look (fun _ => hnul)
   constructor
   · intro hl
-    have h0 : flags ≠ 0 := by
-      intro e; subst e; simp [flagSet] at hl
-    simp only [burlAppend, hs, h0, if_false, hl, if_true]
-    exact ⟨lowerSkipPct_noUpper _ hnul, lowerSkipPct_caseOnly _ 0⟩
+    have e : burlAppend (flagsOf mods) s look = Spec.lower (Spec.encode id mods s) := by
+      rw [h]; simp [Spec.recode, Spec.caseMap, hl]
+    refine ⟨e, ?_, ?_⟩
+    · rw [e, ← lowerSkipPct_spec _ hnul]; exact lowerSkipPct_noUpper _ hnul
+    · rw [e, ← lowerSkipPct_spec _ hnul]; exact lowerSkipPct_caseOnly _ 0
   · intro hl hu
-    have h0 : flags ≠ 0 := by
-      intro e; subst e; simp [flagSet] at hu
-    simp only [burlAppend, hs, h0, if_false, hl, hu, if_true, Bool.false_eq_true]
-    exact ⟨upperSkipPct_noLower _ hnul, upperSkipPct_caseOnly _ 0⟩
+    have e : burlAppend (flagsOf mods) s look = Spec.upper (Spec.encode id mods s) := by
+      rw [h]; simp [Spec.recode, Spec.caseMap, hl, hu]
+    refine ⟨e, ?_, ?_⟩
+    · rw [e, ← upperSkipPct_spec _ hnul]; exact upperSkipPct_noLower _ hnul
+    · rw [e, ← upperSkipPct_spec _ hnul]; exact upperSkipPct_caseOnly _ 0
+
+/-- a case modifier ON ITS OWN transforms as named: `${tolower:url.authority}` inserts the lower-cased
+    authority (same length, same letters up to case), `${tolower:N}` / `${toupper:N}` insert the
+    case-mapped DEFAULT encoding (escpsnde) of the capture — not the empty string -/
+theorem c20_bare_case_modifier (s look : Bytes) (hnul : (0 : UInt8) ∉ s) :
+    burlAppend Extracted.burlToLower s look = Spec.lower s ∧
+    (burlAppend Extracted.burlToLower s look).map toLower = s.map toLower ∧
+    burlAppend Extracted.burlToUpper s look = Spec.upper s ∧
+    (burlAppend Extracted.burlToUpper s look).map toLower = s.map toLower ∧
+    burlAppend (capFlags Extracted.burlToLower) s look = Spec.lower (Spec.escNde true s) ∧
+    burlAppend (capFlags Extracted.burlToUpper) s look = Spec.upper (Spec.escNde true s) := by
+  have hl := (c20_case_modifiers [.tolower] s look (by simpa [Spec.encode, Spec.has] using hnul)).1
+    (by simp [Spec.has])
+  have hu := (c20_case_modifiers [.toupper] s look (by simpa [Spec.encode, Spec.has] using hnul)).2
+    (by simp [Spec.has]) (by simp [Spec.has])
+  simp only [flagsOf, List.foldl_cons, List.foldl_nil, Modifier.flag, Nat.zero_or, Spec.encode, Spec.has,
+             List.any_cons, List.any_nil, id] at hl hu
+  have hE1 : Spec.encode (Spec.escNde true) [.tolower] s = Spec.escNde true s := by simp [Spec.encode, Spec.has]
+  have hE2 : Spec.encode (Spec.escNde true) [.toupper] s = Spec.escNde true s := by simp [Spec.encode, Spec.has]
+  have c1 := burlAppend_spec_cap c20_modifier_map.2.1 [.tolower] s look
+    (fun _ => by rw [hE1]; exact escNde_nul_free true s)
+  have c2 := burlAppend_spec_cap c20_modifier_map.2.1 [.toupper] s look
+    (fun _ => by rw [hE2]; exact escNde_nul_free true s)
+  refine ⟨by simpa using hl.1, by simpa using hl.2.2, by simpa using hu.1, by simpa using hu.2.2, ?_, ?_⟩
+  · simpa [flagsOf, Modifier.flag, Spec.recode, Spec.caseMap, Spec.encode, Spec.has] using c1
+  · simpa [flagsOf, Modifier.flag, Spec.recode, Spec.caseMap, Spec.encode, Spec.has] using c2
+
+example : subst ⟨⟨ofString "/Foo Bar", [some (0, 8), some (1, 8)]⟩, none,
+                 ⟨none, some (ofString "Www.Example"), 80, ofString "/Foo Bar", none⟩⟩
+    (ofString "/${tolower:1}|${toupper:1}|${tolower:url.authority}") = ofString "/foo%20bar|FOO%20BAR|www.example" := by
+  decide
 
 example : burlAppend (Extracted.burlToLower ||| Extracted.burlEncodePsnde) (ofString "/A b/%4A") []
     = ofString "/a%20b/j" := by decide
@@ -162,30 +237,37 @@ example : b64uDec (ofString "aGVs!bG8") = [] := by decide
 
 /-! ## the reference interpreter -/
 
-/-- pcre_keyvalue_buffer_subst() IS the reference interpreter on every well-formed template:
-    for every list of tokens — literal text, `$$` / `%%`, `$N` / `%N`, and `${…}` / `%{…}` with any
-    sequence of documented modifiers in front of a capture number, `url.scheme|authority|port|path|
-    query` or `qsa` — expanding the rendered template gives exactly what the token-by-token reference
-    semantics (`Tok.interp`: captures, URL parts, query-string append, recoding selected by the
-    modifiers) gives. -/
-theorem c20_template_interpreter (env : Env) (toks : List Tok) (hw : ∀ tk ∈ toks, tk.WF) :
-    subst env (toks.flatMap Tok.render) = interpret env toks [] := by
-  have := substGo_interpret c20_modifier_map env toks hw [] []
-  simpa [subst, substGo] using this
+/-- pcre_keyvalue_buffer_subst() equals the reference interpreter `Spec.interpret` on every
+    well-formed template.  `Spec.interpret` (Proofs/KeyValueSpec.lean) is written from the documented
+    semantics and shares no recoding code with the model: percent-escapes are found by a tokeniser,
+    esc / escnde / escpsnde / tolower / toupper are per-token maps, modifiers are looked up by NAME in
+    the modifier list (no flags), captures default to escpsnde and URL parts to no encoding, `${qsa}`
+    joins with '?' or '&'.  Tokens: literal text, `$$` / `%%`, `$N` / `%N`, `${…}` / `%{…}` with ANY
+    sequence of documented modifiers before N, NN, url.scheme|authority|port|path|query or qsa.
+    Side condition (`Spec.tokOk`, decidable): a case modifier does not meet a NUL byte.  (base64url
+    is the textbook codec of Model/BurlAppend.lean, characterised by `c20_b64u_roundtrip`.) -/
+theorem c20_template_interpreter (env : Env) (toks : List Tok) (hw : ∀ tk ∈ toks, tk.WF)
+    (hok : ∀ tk ∈ toks, Spec.tokOk env tk) :
+    subst env (toks.flatMap Tok.render) = Spec.interpret env toks [] := by
+  have h1 := substGo_interpret c20_modifier_map env toks hw [] []
+  have h2 := interpret_spec c20_modifier_map.2.1 env toks [] hok
+  rw [← h2]
+  simpa [subst, substGo] using h1
 
 example : [Tok.lit (ofString "/n/"), .ext dollar [.tolower, .noesc] (.cap 49), .sigil pct, .raw pct 49,
-           .ext dollar [.esc] .path, .ext dollar [] .qsa].flatMap Tok.render
-    = ofString "/n/${tolower:noesc:1}%%%1${esc:url.path}${qsa}" := by decide
+           .ext dollar [.esc] .path, .ext dollar [.toupper] (.cap 49), .ext dollar [] .qsa].flatMap Tok.render
+    = ofString "/n/${tolower:noesc:1}%%%1${esc:url.path}${toupper:1}${qsa}" := by decide
 example : ∀ tk ∈ [Tok.lit (ofString "/n/"), .ext dollar [.tolower, .noesc] (.cap 49), .sigil pct, .raw pct 49,
-                  .ext dollar [.esc] .path, .ext dollar [] .qsa], tk.WF := by
+                  .ext dollar [.esc] .path, .ext dollar [.toupper] (.cap 49), .ext dollar [] .qsa], tk.WF := by
   intro tk h
   simp only [List.mem_cons, List.not_mem_nil, or_false] at h
-  rcases h with h | h | h | h | h | h <;> subst h <;> simp [Tok.WF, Item.WF, isSigil, dollar, pct, isDigit, ofString]
-example : interpret ⟨⟨ofString "/Foo/x", [some (0, 6), some (1, 4)]⟩, some ⟨ofString "www.h", [some (0, 5), some (0, 3)]⟩,
+  rcases h with h | h | h | h | h | h | h <;> subst h <;>
+    simp [Tok.WF, Item.WF, isSigil, dollar, pct, isDigit, ofString]
+example : Spec.interpret ⟨⟨ofString "/Foo/x", [some (0, 6), some (1, 4)]⟩, some ⟨ofString "www.h", [some (0, 5), some (0, 3)]⟩,
                      ⟨none, none, 80, ofString "/Foo/x?a=1", some (ofString "a=1")⟩⟩
     [Tok.lit (ofString "/n/"), .ext dollar [.tolower, .noesc] (.cap 49), .sigil pct, .raw pct 49,
-     .ext dollar [.esc] .path, .ext dollar [] .qsa] []
-    = ofString "/n/foo%www%2FFoo%2Fx?a=1" := by decide
+     .ext dollar [.esc] .path, .ext dollar [.toupper] (.cap 49), .ext dollar [] .qsa] []
+    = ofString "/n/foo%www%2FFoo%2FxFOO?a=1" := by decide
 
 /-! ## literals -/
 
@@ -237,19 +319,6 @@ theorem c20_captures (env : Env) (d : UInt8) (t out : Bytes) (hd : isDigit d = t
     | none => simp
     | some c => simp [burlAppend_zero]
 
-/-- what "capture N" is: the bytes of the subject between the offsets PCRE2 reported for group N;
-    empty if the group did not take part in the match or does not exist -/
-theorem c20_capture_value (c : Caps) (k : Nat) :
-    (∀ s e, c.ovec[k]? = some (some (s, e)) → (c.get k).1 = (c.subject.drop s).take (e - s)) ∧
-    (c.ovec[k]? = some none → (c.get k).1 = []) ∧
-    (c.ovec.length ≤ k → (c.get k).1 = []) := by
-  refine ⟨?_, ?_, ?_⟩
-  · intro s e h; simp [Caps.get, h]
-  · intro h; simp [Caps.get, h]
-  · intro h
-    have : c.ovec[k]? = none := by simp [h]
-    simp [Caps.get, this]
-
 example : subst ⟨⟨ofString "/foo/bar", [some (0, 8), some (1, 4), none]⟩,
                  some ⟨ofString "www.example.com", [some (0, 15), some (0, 3)]⟩,
                  ⟨none, none, 80, ofString "/foo/bar", none⟩⟩
@@ -263,8 +332,8 @@ theorem c20_braced_capture (env : Env) (d : UInt8) (t out : Bytes) (hd : isDigit
                                          (env.rule.get (d.toNat - 48)).2) := by
   rw [substGo_brace env dollar (by decide)]
   simp only [substExt, extGo, hd, if_true]
-  simp [extNumber, isDigit, rbrace, idxOf?, capAppend, Extracted.kvMod_default,
-        Extracted.burlEncodePsnde, dollar]
+  have hc : capFlags 0 = Extracted.burlEncodePsnde := by decide
+  simp [extNumber, isDigit, rbrace, idxOf?, capAppend, hc, dollar]
 
 example : subst ⟨⟨ofString "/a b/%41%2f", [some (0, 11), some (1, 11)]⟩, none, ⟨none, none, 80, [], none⟩⟩
     (ofString "/${1}") = ofString "/a%20b/A%2f" := by decide
@@ -341,25 +410,47 @@ example : subst ⟨⟨[], []⟩, none, ⟨some (ofString "https"), some (ofStrin
     (ofString "${url.scheme}://${url.authority}:${url.port}${url.path}?${url.query}")
     = ofString "https://h.example:8443/p/q?x=1" := by decide
 
-/-! ## rewrite-once / rewrite-repeat -/
+/-! ## rewrite-once / rewrite-repeat / -if-not-file -/
 
-/-- The re-dispatch loop of url.rewrite-repeat is bounded for *every* rule list and every
-    behaviour of the regular expressions: it ends within 102 calls of process_rewrite_rules
-    (more fuel never changes the outcome) after at most 101 rewrites. -/
-theorem c20_repeat_bounded (matcher : Bytes → List MatchRes) (templates : List Bytes) (repeatIdx : Nat)
-    (cond : Option Caps) (opts : Opts) (scheme authority : Option Bytes) (port : Nat) (target : Bytes)
-    (k : Nat) :
-    rwRun matcher templates repeatIdx cond opts scheme authority port (102 + k) target none 0 =
-      rwRun matcher templates repeatIdx cond opts scheme authority port 102 target none 0 ∧
-    rwRun matcher templates repeatIdx cond opts scheme authority port 102 target none 0 ≠ .outOfFuel ∧
-    (rwRun matcher templates repeatIdx cond opts scheme authority port 102 target none 0).rewrites ≤ 101 := by
-  have := rwRun_bounded matcher templates repeatIdx cond opts scheme authority port 102 target none 0 k
+/-- The rewrite stage is bounded for EVERY configuration and every behaviour of the regular
+    expressions and of the filesystem: `pass target` may give a different pair of rule lists
+    (url.rewrite-once and -repeat for the uri hook, the -if-not-file lists for the physical hook), other
+    repeat indices, other %N captures and another file kind on every pass (after a rewrite other
+    conditions may hold), yet the loop of HANDLER_COMEBACK re-dispatches ends within 102 passes (more
+    fuel never changes the outcome) after at most 101 rewrites — both hooks count in the same
+    per-request counter. -/
+theorem c20_repeat_bounded (pass : Bytes → RwPass) (opts : Opts) (scheme authority serverName : Bytes)
+    (port : Nat) (target : Bytes) (k : Nat) :
+    rwRunG pass opts scheme authority serverName port (102 + k) target none 0 =
+      rwRunG pass opts scheme authority serverName port 102 target none 0 ∧
+    rwRunG pass opts scheme authority serverName port 102 target none 0 ≠ .outOfFuel ∧
+    (rwRunG pass opts scheme authority serverName port 102 target none 0).rewrites ≤ 101 := by
+  have := rwRunG_bounded pass opts scheme authority serverName port 102 target none 0 k
     (by intro st h; cases h) (by simp [rwBudget])
   simpa [rwRewritesLeft] using this
 
-/-- the bound is reached: a rewrite-repeat rule that always matches is stopped by the loop limit -/
-example : rwRun (fun _ => [.matched [some (0, 1)]]) [ofString "/x"] 0 none ⟨0⟩ none none 80 200 (ofString "/a") none 0
-    = .failed .loopError 101 := by decide
+/-- the same for the loop the in-process correspondence drives (uri hook only, one rule list) -/
+theorem c20_repeat_bounded_uri (matcher : Bytes → List MatchRes) (templates : List Bytes) (repeatIdx : Nat)
+    (cond : Option Caps) (opts : Opts) (scheme authority serverName : Bytes) (port : Nat) (target : Bytes)
+    (k : Nat) :
+    rwRun matcher templates repeatIdx cond opts scheme authority serverName port (102 + k) target none 0 =
+      rwRun matcher templates repeatIdx cond opts scheme authority serverName port 102 target none 0 ∧
+    rwRun matcher templates repeatIdx cond opts scheme authority serverName port 102 target none 0 ≠ .outOfFuel ∧
+    (rwRun matcher templates repeatIdx cond opts scheme authority serverName port 102 target none 0).rewrites ≤ 101 := by
+  have := rwRun_bounded matcher templates repeatIdx cond opts scheme authority serverName port 102 target none 0 k
+    (by intro st h; cases h) (by simp [rwBudget])
+  simpa [rwRewritesLeft] using this
+
+/-- the bound is reached: a rewrite-repeat rule that always matches is stopped by the loop limit;
+    so is an -if-not-file repeat rule whose result never names a regular file -/
+example : rwRun (fun _ => [.matched [some (0, 1)]]) [ofString "/x"] 0 none ⟨0⟩ (ofString "http") [] (ofString "srv") 80
+    200 (ofString "/a") none 0 = .failed .loopError 101 := by decide
+example : rwRunG (fun t => ⟨[], 0, [(ofString "/x", .matched [some (0, t.length)])], 0, none, false, .directory⟩)
+    ⟨0⟩ (ofString "http") [] (ofString "srv") 80 200 (ofString "/a") none 0 = .failed .loopError 101 := by decide
+-- `${url.authority}` is the server name when the request has no Host
+example : rwRun (fun t => if t = ofString "/a" then [.matched [some (0, 2)]] else [.nomatch])
+    [ofString "/${url.authority}"] 0 none ⟨0⟩ (ofString "http") [] (ofString "srv") 80 200 (ofString "/a") none 0
+    = .served (ofString "/srv") 1 := by decide
 
 /-- url.rewrite-once: once a rule below `repeatIdx` has been applied, the request is not
     rewritten again — the next pass through mod_rewrite returns without consulting any rule
@@ -405,29 +496,39 @@ theorem c20_rewrite_once (repeatIdx : Nat) (cond : Option Caps) (url : UrlParts)
 
 example : rwRun (fun t => if t = ofString "/a" then [.matched [some (0, 2)], .nomatch]
                           else [.nomatch, .matched [some (0, 2)]])
-    [ofString "/b", ofString "/c"] 1 none ⟨0⟩ none none 80 200 (ofString "/a") none 0
+    [ofString "/b", ofString "/c"] 1 none ⟨0⟩ (ofString "http") (ofString "h") [] 80 200 (ofString "/a") none 0
     = .served (ofString "/b") 1 := by decide
 example : rwRun (fun t => if t = ofString "/a" then [.matched [some (0, 2)], .nomatch]
                           else if t = ofString "/b" then [.nomatch, .matched [some (0, 2)]] else [.nomatch, .nomatch])
-    [ofString "/b", ofString "/c"] 0 none ⟨0⟩ none none 80 200 (ofString "/a") none 0
+    [ofString "/b", ofString "/c"] 0 none ⟨0⟩ (ofString "http") (ofString "h") [] 80 200 (ofString "/a") none 0
     = .served (ofString "/c") 2 := by decide
 
-/-- url.rewrite-if-not-file / url.rewrite-repeat-if-not-file (mod_rewrite_physical): the rules are
-    applied — with exactly the first-match / once / repeat semantics of process_rewrite_rules — unless
-    the physical path is a regular file; an existing directory (or any other non-regular object, or a
-    missing path) does NOT exempt the request.  A regular file is served untouched whatever the rules. -/
-theorem c20_if_not_file (kind : FsKind) (repeatIdx : Nat) (cond : Option Caps) (url : UrlParts)
-    (rules : List (Bytes × MatchRes)) (h : Option RwState) :
-    (kind = .regular → rwPhysical false kind repeatIdx cond url rules h = (.goOn, h)) ∧
-    (kind ≠ .regular → rules ≠ [] →
-        rwPhysical false kind repeatIdx cond url rules h = rwCall repeatIdx cond url rules h) := by
-  constructor
-  · intro hk
-    unfold rwPhysical
-    by_cases he : rules.isEmpty = true <;> simp [he, hk]
-  · intro hk hr
-    have he : rules.isEmpty = false := by cases rules <;> simp_all
-    simp [rwPhysical, he, hk]
+/-- url.rewrite-if-not-file / url.rewrite-repeat-if-not-file on the first pass of a request: the
+    request is rewritten — to the expansion of the FIRST matching rule of the list, marked final if
+    that rule is a rewrite-if-not-file (not -repeat-) rule — exactly when the physical path is NOT a
+    regular file (a directory, a missing path, any other object do not exempt it) and no module has
+    taken the request; a regular file is served untouched whatever the rules say. -/
+theorem c20_if_not_file (handlerSet : Bool) (kind : FsKind) (repeatIdx : Nat) (cond : Option Caps) (url : UrlParts)
+    (pre post : List (Bytes × MatchRes)) (tmpl : Bytes) (ov : OVec) (hpre : ∀ r ∈ pre, r.2 = .nomatch)
+    (hres : (subst { rule := { subject := url.path, ovec := ov }, cond := cond, url := url } tmpl).head? = some slash) :
+    rwPhysical handlerSet kind repeatIdx cond url (pre ++ (tmpl, .matched ov) :: post) none =
+      if handlerSet || kind = .regular then (.goOn, none)
+      else (.comeback (subst { rule := { subject := url.path, ovec := ov }, cond := cond, url := url } tmpl),
+            some { count := 0, finished := pre.length < repeatIdx }) := by
+  have hne : tmpl ≠ [] := by intro e; subst e; simp [subst, substGo] at hres
+  have hte : tmpl.isEmpty = false := by cases tmpl <;> simp_all
+  have hfm := (c20_first_match cond url url.path pre post tmpl ov hpre).1
+  simp only [hte, Bool.false_eq_true, if_false] at hfm
+  unfold rwPhysical
+  by_cases hh : handlerSet = true
+  · simp [hh]
+  · by_cases hk : kind = .regular
+    · have : (pre ++ (tmpl, MatchRes.matched ov) :: post).isEmpty = false := by simp
+      simp [hh, hk, this]
+    · have : (pre ++ (tmpl, MatchRes.matched ov) :: post).isEmpty = false := by simp
+      simp only [hh, Bool.false_eq_true, if_false, this, hk, Bool.false_or, decide_false]
+      unfold rwCall
+      simp only [Option.map_none, rwCall.body, hfm, hres, if_true, Option.getD_none, Bool.false_or]
 
 example : rwPhysical false .directory 1 none ⟨none, none, 80, ofString "/app/", none⟩
     [(ofString "/front.txt", .matched [some (0, 5)])] none
@@ -438,18 +539,22 @@ example : rwPhysical false .regular 1 none ⟨none, none, 80, ofString "/app/rea
 /-! ## alias.url -/
 
 /-- mod_alias_remap(): the alias applied is the first one (in configuration order) whose key is a
-    prefix of the url-path; exactly the document root and that key are replaced by the alias
-    value, everything behind the key is kept byte for byte; the value becomes the new basedir. -/
-theorem c20_alias_exact_prefix (aliases : List (Bytes × Bytes)) (basedir path p' b' : Bytes)
-    (h : aliasRemap false aliases basedir path = .remapped p' b') :
-    ∃ (pre post : List (Bytes × Bytes)) (k v rest : Bytes),
+    prefix of the url-path — compared byte for byte, or ASCII-case-insensitively with
+    server.force-lowercase-filenames (`nocase`); exactly the document root and the matched prefix `k'`
+    (as long as the key) are replaced by the alias value, everything behind is kept byte for byte; the
+    value becomes the new basedir. -/
+theorem c20_alias_exact_prefix (nocase : Bool) (aliases : List (Bytes × Bytes)) (basedir path p' b' : Bytes)
+    (h : aliasRemap nocase aliases basedir path = .remapped p' b') :
+    ∃ (pre post : List (Bytes × Bytes)) (k v k' rest : Bytes),
       aliases = pre ++ (k, v) :: post ∧
-      (∀ kv ∈ pre, ¬ kv.1 <+: path.drop (baseLen basedir)) ∧
-      path.drop (baseLen basedir) = k ++ rest ∧ p' = v ++ rest ∧ b' = v := by
+      (∀ kv ∈ pre, ¬ ∃ k'' r, path.drop (baseLen basedir) = k'' ++ r ∧ k''.length = kv.1.length ∧
+          (if nocase then eqIcase k'' kv.1 = true else k'' = kv.1)) ∧
+      path.drop (baseLen basedir) = k' ++ rest ∧ k'.length = k.length ∧
+      (if nocase then eqIcase k' k = true else k' = k) ∧ p' = v ++ rest ∧ b' = v := by
   unfold aliasRemap at h
   split at h
   · simp at h
-  · cases hf : List.find? (aliasKeyMatches false (path.drop (baseLen basedir))) aliases with
+  · cases hf : List.find? (aliasKeyMatches nocase (path.drop (baseLen basedir))) aliases with
     | none => simp [hf] at h
     | some kv =>
       obtain ⟨k, v⟩ := kv
@@ -459,25 +564,37 @@ theorem c20_alias_exact_prefix (aliases : List (Bytes × Bytes)) (basedir path p
       · simp only [AliasRes.remapped.injEq] at h
         rw [List.find?_eq_some_iff_append] at hf
         obtain ⟨hm, pre, post, hl, hpre⟩ := hf
-        simp only [aliasKeyMatches, Bool.false_eq_true, if_false, Bool.and_eq_true, decide_eq_true_eq,
-                   beq_iff_eq] at hm
-        refine ⟨pre, post, k, v, (path.drop (baseLen basedir)).drop k.length, hl, ?_, ?_, h.1.symm, h.2.symm⟩
-        · intro kv hkv hpfx
+        simp only [aliasKeyMatches, Bool.and_eq_true, decide_eq_true_eq] at hm
+        refine ⟨pre, post, k, v, (path.drop (baseLen basedir)).take k.length,
+                (path.drop (baseLen basedir)).drop k.length, hl, ?_, ?_, ?_, ?_, h.1.symm, h.2.symm⟩
+        · intro kv hkv hex
+          obtain ⟨k'', r, hr, hlen, hcmp⟩ := hex
           have := hpre kv hkv
-          simp only [aliasKeyMatches, Bool.false_eq_true, if_false, Bool.not_eq_eq_eq_not, Bool.not_true,
-                     Bool.and_eq_false_iff, decide_eq_false_iff_not, beq_eq_false_iff_ne] at this
-          obtain ⟨r, hr⟩ := hpfx
+          simp only [aliasKeyMatches, Bool.not_eq_eq_eq_not, Bool.not_true, Bool.and_eq_false_iff,
+                     decide_eq_false_iff_not] at this
+          have htake : (path.drop (baseLen basedir)).take kv.1.length = k'' := by
+            rw [hr, ← hlen]; simp
           rcases this with h1 | h2
-          · apply h1; rw [← hr]; simp
-          · apply h2; rw [← hr]; simp
-        · conv => lhs; rw [← List.take_append_drop k.length (path.drop (baseLen basedir))]
-          rw [hm.2]
+          · apply h1; rw [hr, ← hlen]; simp
+          · rw [htake] at h2
+            cases nocase with
+            | true => simp only [if_true] at hcmp h2; rw [hcmp] at h2; exact absurd h2 (by decide)
+            | false =>
+              simp only [Bool.false_eq_true, if_false] at hcmp h2
+              subst hcmp; simp at h2
+        · exact (List.take_append_drop _ _).symm
+        · rw [List.length_take]; omega
+        · cases nocase with
+          | true => simpa using hm.2
+          | false => simpa using hm.2
 
 example : aliasRemap false [(ofString "/cgi-bin/", ofString "/usr/lib/cgi-bin/"), (ofString "/doc", ofString "/usr/share/doc")]
     (ofString "/var/www/") (ofString "/var/www/doc/x.html")
     = .remapped (ofString "/usr/share/doc/x.html") (ofString "/usr/share/doc") := by decide
 example : aliasRemap false [(ofString "/doc", ofString "/usr/share/doc/")] (ofString "/var/www") (ofString "/var/www/doc../x")
     = .forbidden := by decide
+example : aliasRemap true [(ofString "/Doc/", ofString "/usr/share/doc/")] (ofString "/var/www/") (ofString "/var/www/doc/X.html")
+    = .remapped (ofString "/usr/share/doc/X.html") (ofString "/usr/share/doc/") := by decide
 
 /-! ## virtual hosts -/
 
